@@ -317,6 +317,13 @@ func (k *Kernel) Parked() []*Task {
 	return ps
 }
 
+// RoleCount: how many tasks of the role have been named so far (the ordinal of the newest).
+func (k *Kernel) RoleCount(role string) int {
+	k.mu.Lock()
+	defer k.mu.Unlock()
+	return k.roleN[role]
+}
+
 // RunnableParked: the parked tasks that may be released now, in the order of Parked().
 func (k *Kernel) RunnableParked() []*Task {
 	var out []*Task
